@@ -313,7 +313,14 @@ impl PatchManager {
         for entry in std::fs::read_dir(self.patches_dir())? {
             let entry = entry?;
             match entry.file_name().to_string_lossy().parse::<usize>() {
-                Ok(number) if number < patch_number => {
+                Ok(number)
+                    if number < patch_number
+                        && self
+                            .patches_state
+                            .next_boot_patch
+                            .as_ref()
+                            .map_or(true, |p| p.number != number) =>
+                {
                     // delete_patch_artifacts logs for us, no need to log here.
                     let _ = self.delete_patch_artifacts(number);
                 }
